@@ -47,6 +47,16 @@ def rule_I1(ctx) -> None:
     from .. import concrete
     probes = sorted(_kw.kwlist) + ["Class", "IMPORT", "none", "foo", "foo_", "_foo", "Foo", "x1", "1x", "", "a-b", "a b", "9"]
     module_consts = {k: v for k, v in cas.consts.items() if isinstance(v, (str, int, frozenset, tuple)) and type(v).__name__ not in ("SymName", "SymCall", "SymLambda")}
+    # module-level names bound to an expression over the standard library's keyword tables (frozenset(keyword.kwlist)): evaluated
+    # by the analyser's own evaluator
+    from ..sym import from_ast as _from_ast
+    for st_ in cas.tree.body:
+        tg_ = st_.targets[0] if isinstance(st_, ast.Assign) and len(st_.targets) == 1 else (st_.target if isinstance(st_, ast.AnnAssign) and st_.value is not None else None)
+        if isinstance(tg_, ast.Name) and tg_.id not in module_consts and "keyword" in ast.unparse(st_.value):
+            try:
+                module_consts[tg_.id] = concrete.ev(_from_ast(st_.value), dict(module_consts))
+            except concrete.Unknown:
+                pass
     bad_probe = unknown_probe = None
     for name_ in probes:
         env = dict(module_consts)
@@ -78,6 +88,9 @@ def rule_I1(ctx) -> None:
             ctx.proved("I1", "sanitize_name:both-guards", cas.loc(sn), f"{len(probes)} distinguished names (keywords in every capitalisation, non-identifiers, plain names)")
     elif kw_branch and ident_branch and passthrough:
         ctx.proved("I1", "sanitize_name:both-guards", cas.loc(sn))
+    elif unknown_probe is not None and not any(isinstance(n_, ast.Attribute) and n_.attr == "iskeyword" for n_ in ast.walk(sn)):
+        # neither evaluable at the distinguished names nor in the structural form the fall-back knows: no verdict
+        ctx.inconclusive("I1", "sanitize_name:both-guards", f"sanitize_name does not evaluate at the distinguished names ({unknown_probe})", cas.loc(sn))
     else:
         missing = [n for n, ok in (("keyword -> suffix '_'", kw_branch), ("not str.isidentifier() -> prefix '_'", ident_branch), ("valid name unchanged", passthrough)) if not ok]
         ctx.refuted("I1", "sanitize_name:both-guards", ";".join(missing), cas.loc(sn),
